@@ -869,7 +869,8 @@ def check(ctx):
     check_fingerprint(ix, rep)
     check_mpstate(ix, rep)
     check_opstate(ix, rep)
-    from .c05_extra import extra
+    from .c05_extra import extra, order_and_stale
 
     extra(ctx, rep)
+    order_and_stale(ctx, rep)
     return rep
